@@ -637,9 +637,9 @@ def check_lookup(chk, ee):
 def run(chk):
     chk.rule('C03.X', 'dispatch exhaustive w.r.t. the schema (expression kinds, binary operators)', floor=8)
     chk.rule('C03.T', 'operator action table over 13x13 host type atoms equals the language definition', floor=6 * 169)
-    chk.rule('C03.S', 'short circuit: && / || return the left value or evaluate the right, by value_boolean(left)', floor=4)
+    chk.rule('C03.S', 'short circuit: && / || return the left value or evaluate the right, by value_boolean(left) (abstract evaluation, E6e)', floor=1)
     chk.rule('C03.E', 'operands and arguments evaluated exactly once, left to right', floor=5)
-    chk.rule('C03.I', 'if() evaluates the condition once and only the selected branch', floor=3)
+    chk.rule('C03.I', 'if() evaluates the condition once and only the selected branch (abstract evaluation, E6e)', floor=1)
     chk.rule('C03.B', 'expression built-ins alias the library functions; lookup order', floor=40)
     chk.assumptions += ['host + - * / % ** on int/float are the numeric operations; value_string / value_boolean / value_compare are checked by C13 / C11',
                         'models are schema-valid']
@@ -648,9 +648,13 @@ def run(chk):
     chk.guard('C03.X', check_dispatch, chk, ee, bs)
     chk.guard('C03.T', check_table, chk, ee, bs)
     chk.guard('C03.T', check_unary, chk, ee)
-    chk.guard('C03.S', check_short_circuit, chk, ee, bs)
+    from .. import evalsim
+    what = {'lazy': '&& and || return the left value or evaluate the right operand, decided by value_boolean(left)', 'lazy-if': 'if() evaluates the condition once and only the selected branch',
+            'args': 'arguments evaluated once, left to right, before the call', 'lookup': 'variables: keywords, locals (membership), globals; functions: locals, globals, built-ins under the flag'}
+    chk.guard('C03.S', evalsim.report, chk, {'lazy': 'C03.S', 'truth': 'C03.S'}, what)
+    chk.guard('C03.I', evalsim.report, chk, {'lazy-if': 'C03.I'}, what)
+    chk.guard('C03.E', evalsim.report, chk, {'args': 'C03.E'}, what)
     chk.guard('C03.E', check_once, chk, ee, bs)
-    chk.guard('C03.I', check_if, chk, ee)
     # "comparisons use the total value order": the relational branches and value_compare itself (rules shared with C11)
     from . import c11
     for r in ('C11.P', 'C11.F', 'C11.C', 'C11.S'):
@@ -659,4 +663,4 @@ def run(chk):
     chk.guard('C11.P', c11.check_value_compare, chk)
     chk.guard('C11.S', c11.check_sign_tests, chk)
     chk.guard('C03.B', check_aliases, chk)
-    chk.guard('C03.B', check_lookup, chk, ee)
+    chk.guard('C03.B', evalsim.report, chk, {'lookup': 'C03.B'}, what)
